@@ -209,11 +209,11 @@ def asked_dt(body):
 class Server:
     """a fake FI: dt counter and the set of profiles it has sent (bytes -> dt)"""
 
-    def __init__(self, name, mins, ofx_server):
+    def __init__(self, name, mins, ofx_server, url=None):
         self.name = name
         self.mins = mins
         self.os = ofx_server
-        self.url = "https://%s.invalid/ofx" % name
+        self.url = url or "https://%s.invalid/ofx" % name
         self.dt = 1
         self.sent = {}
 
